@@ -641,7 +641,9 @@ class FunctionDefinition(TypedExpression):
             self.output and getattr(self.output, "has_scope", lambda: False)()
         )
         output_multiline = False
-        if self.output is not None:
+        output_inline_preview: str | None = None
+        if self.output is not None and args_are_formals:
+            # Only the formals layout depends on whether the body spans lines.
             output_inline_preview = self.output.rebuild(indent=base_indent, inline=True)
             output_multiline = "\n" in output_inline_preview
 
@@ -659,11 +661,13 @@ class FunctionDefinition(TypedExpression):
         )
         line_break = "\n" * breaks_after_semicolon
         output_inline = line_break == ""
-        output_str = (
-            self.output.rebuild(indent=base_indent, inline=output_inline)
-            if self.output
-            else "{ }"
-        )
+        if not self.output:
+            output_str = "{ }"
+        elif output_inline and output_inline_preview is not None:
+            # Same arguments as the preview: do not render the body twice.
+            output_str = output_inline_preview
+        else:
+            output_str = self.output.rebuild(indent=base_indent, inline=output_inline)
         return line_break, output_str
 
     def _format_colon_split(self, *, base_indent: int, line_break: str) -> str:
